@@ -7,11 +7,12 @@
                  never directly holds an interface.
      secure      the model of clone.Secure (SecureModel.v, function by function, with the code's panic sites).
      sec_at v x  x is the value of an exported field tagged coerce:"secure" reachable in v through exported untagged
-                 struct fields, pointers, slices, map values and interface values.  NOT through arrays and NOT through
-                 unexported fields: the two documented exclusions of clone.Secure.
+                 struct fields, embedded structs / non-nil *structs of unexported types (their fields are promoted and
+                 serialised), pointers, slices, map values and interface values.  NOT through arrays and NOT through
+                 ordinary unexported fields: the two documented exclusions of clone.Secure.
      hidden x    x = "[secret hidden]" or x is the zero value of its type.
-     erase v     v with the values of secure-tagged and of unexported fields blanked; equal erasures = same shape, same
-                 field metadata, same map keys, same nil-ness, same untagged data (whole arrays included).
+     erase v     v with the values of the exposed secure-tagged fields blanked; equal erasures = same shape, same field
+                 metadata, same map keys, same nil-ness, same untagged data (unexported fields and whole arrays included).
      scrub       the one-screen functional specification of Secure (SecureSpec.v). *)
 From Coercion.Secure Require Import GoVal SecureModel SecureSpec SecureProofs Registry RegistryProofs Surfaces SurfacesProofs.
 
@@ -33,7 +34,7 @@ Print Assumptions c17_scrubbed.
 Theorem c17_secure_is_scrub : forall v : gv, wf v = true ->
   secure v = match v with
              | VPtr None => OOk v
-             | _ => if struct_ptr v then OOk (scrub false v) else OErr
+             | _ => if struct_ptr v then OOk (scrub v) else OErr
              end.
 Proof. exact secure_computes_scrub. Qed.
 Print Assumptions c17_secure_is_scrub.
